@@ -79,6 +79,7 @@ def run(ctx, clauses=CLAUSES, prop_note=None):
             for u, s_ in zip(leaves, combo):
                 syn[u - 1] = s_
             sweep.append(sc.sinput(ot, st, lm, sc.SUPER_COSTS[0], syn, (1, 2, 3, 4)))
+        sweep = sweep[ctx.seed % 3::3]   # a third of the 50 625 tuples per run (the seed picks which): keeps the tier near 10 minutes
         cases += [(FAM, inp, (("ext", "ALL"),)) for inp in sweep]
         ctx.extra["caterpillar_sweep"] = len(sweep)
     results = sc.run_all(cases)
